@@ -343,6 +343,11 @@ func (w *World) CtorSummary(fi *FuncInfo) *CtorSum {
 	if len(good) == 0 {
 		return cs
 	}
+	if len(good) > 1 {
+		if w.joinCtorReturns(cs, good) {
+			return cs
+		}
+	}
 	// use the last (main) return; other successful returns must agree on what we read
 	r := good[len(good)-1]
 	if len(r.Vals) == 0 {
@@ -367,6 +372,132 @@ func (w *World) CtorSummary(fi *FuncInfo) *CtorSum {
 		}
 	}
 	return cs
+}
+
+// joinCtorReturns: a constructor with several successful returns leaves, in each field, the value of
+// whichever return was taken: the fields of all returns are joined under the returns' path conditions
+// (a field one path never assigns is zero / nil there). False when a return does not hand back an object.
+func (w *World) joinCtorReturns(cs *CtorSum, good []*RetRec) bool {
+	type rf struct {
+		guard  string
+		fields map[string]Val
+		ret    *RetRec
+		root   string
+	}
+	var all []rf
+	for _, r := range good {
+		if len(r.Vals) == 0 {
+			return false
+		}
+		ov, ok := r.Vals[0].(ObjV)
+		if !ok {
+			return false
+		}
+		f := map[string]Val{}
+		canonFields(r.St, ov.Path, "$", f, 0)
+		if r.Guard != "" {
+			for k, v := range f {
+				if iv, ok := v.(IntV); ok && iv.T != nil {
+					f[k] = IntV{simplifyUnderGuard(iv.T, r.Guard)}
+				}
+			}
+		}
+		all = append(all, rf{r.Guard, f, r, ov.Path})
+	}
+	last := all[len(all)-1]
+	joined := map[string]Val{}
+	for k, v := range last.fields {
+		joined[k] = v
+	}
+	zeroFor := func(v Val) Val {
+		switch v.(type) {
+		case IntV:
+			return IntV{Const(0)}
+		case BoolV:
+			return BoolV{"false"}
+		default:
+			return NilV{}
+		}
+	}
+	for i := len(all) - 2; i >= 0; i-- {
+		g := all[i].guard
+		if g == "" {
+			g = "true"
+		}
+		keys := map[string]bool{}
+		for k := range all[i].fields {
+			keys[k] = true
+		}
+		for k := range joined {
+			keys[k] = true
+		}
+		for k := range keys {
+			a, aok := all[i].fields[k]
+			b, bok := joined[k]
+			switch {
+			case aok && bok:
+				if a.valString() == b.valString() {
+					joined[k] = b
+				} else {
+					joined[k] = joinVal(g, a, b)
+				}
+			case aok:
+				joined[k] = joinVal(g, a, zeroFor(a))
+			case bok:
+				joined[k] = joinVal(g, zeroFor(b), b)
+			}
+		}
+	}
+	for _, v := range joined {
+		switch v.(type) {
+		case AltV, UnkV:
+			return false // different objects per path: the per-return summaries are used instead
+		}
+	}
+	cs.Root = last.root
+	cs.State = last.ret.St
+	cs.Guard = ""
+	for k, v := range joined {
+		cs.Fields[k] = v
+	}
+	return true
+}
+
+// CtorSummaries gives one summary per successful return of the constructor (each with the fields of
+// that return's state, simplified under its path condition).
+func (w *World) CtorSummaries(fi *FuncInfo) []*CtorSum {
+	fs := w.Interpret(fi, "ctor")
+	good := goodRets(fs.Rets)
+	if len(good) <= 1 {
+		return []*CtorSum{w.CtorSummary(fi)}
+	}
+	var out []*CtorSum
+	for _, r := range good {
+		cs := &CtorSum{Fi: fi, Fields: map[string]Val{}, In: fs.In, Notes: fs.Notes, FS: fs, Stores: fs.Stores}
+		if len(r.Vals) == 0 {
+			continue
+		}
+		ov, ok := r.Vals[0].(ObjV)
+		if !ok {
+			continue
+		}
+		cs.Root = ov.Path
+		cs.State = r.St
+		cs.Guard = r.Guard
+		canonFields(r.St, ov.Path, "$", cs.Fields, 0)
+		if r.Guard != "" {
+			for k, v := range cs.Fields {
+				if iv, ok := v.(IntV); ok && iv.T != nil {
+					cs.Fields[k] = IntV{simplifyUnderGuard(iv.T, r.Guard)}
+				}
+			}
+		}
+		out = append(out, cs)
+	}
+	if len(out) == 0 {
+		return []*CtorSum{w.CtorSummary(fi)}
+	}
+	return out
 }
 
 // simplifyUnderGuard resolves the ite atoms of t whose condition is one of the guard's conjuncts.
@@ -700,4 +831,23 @@ func (w *World) Ensures(f *types.Func) []Fact {
 	}
 	c.ensures[f] = out
 	return out
+}
+
+func init() {
+	extraDumps["multiret"] = func(w *World, args []string) {
+		for _, key := range w.sortedFuncKeys() {
+			fi := w.Funcs[key]
+			if fi.Decl.Body == nil || fi.Recv != nil || fi.Decl.Type.Results == nil {
+				continue
+			}
+			sig := fi.Obj.Type().(*types.Signature)
+			if sig.Results().Len() == 0 || w.KindOfType(sig.Results().At(0).Type()) == nil {
+				continue
+			}
+			fs := w.Interpret(fi, "ctor")
+			if g := goodRets(fs.Rets); len(g) > 1 {
+				fmt.Printf("%s: %d successful returns\n", key, len(g))
+			}
+		}
+	}
 }
